@@ -109,6 +109,45 @@ try:
 except sansldap.ProtocolError:
     pass
 
+# more of the API, so that patterns compiled or used lazily on less common paths are seen too: every call of both
+# sessions, error and termination paths, diagnostics in the layouts LDAP products use
+_R = sansldap.LDAPResult
+_C = sansldap.LDAPResultCode
+_DIAG = ["", "bye", "000004DC: LdapErr: DSID-0C090A5C, comment: In order to perform this operation a successful bind must be completed on the connection., data 0, v4563\x00",
+         "80090308: LdapErr: DSID-0C090447, comment: AcceptSecurityContext error, data 52e, v3839", "NDS error: failed authentication (-669)", "TLS already started", "x" * 300]
+for diag in _DIAG:
+    for code in (_C.UNAVAILABLE, _C.PROTOCOL_ERROR, _C.SUCCESS, _C.STRONG_AUTH_REQUIRED, _C.INVALID_CREDENTIALS, _C.REFERRAL):
+        for mk in (
+            lambda: sansldap.ExtendedResponse(0, [], _R(code, "", diag, None), "1.3.6.1.4.1.1466.20036", None),
+            lambda: sansldap.ExtendedResponse(1, [], _R(code, "dc=x", diag, ["ldap://h/dc=x"]), "1.3.6.1.4.1.1466.20037", b"v"),
+            lambda: sansldap.BindResponse(1, [], _R(code, "", diag, None), b"tok"),
+            lambda: sansldap.SearchResultDone(1, [sansldap.PagedResultControl(False, 0, b"ck")], _R(code, "", diag, None)),
+        ):
+            for role in ("client", "server"):
+                x = sansldap.LDAPClient() if role == "client" else sansldap.LDAPServer()
+                try:
+                    if role == "client":
+                        x.bind_simple("cn=a", "p") if isinstance(mk(), sansldap.BindResponse) else x.extended_request("1.3.6.1.4.1.1466.20037") if isinstance(mk(), sansldap.ExtendedResponse) else x.search_request()
+                        x.data_to_send()
+                    x.receive(mk().pack(sansldap.LDAPClient()._packing_options if hasattr(sansldap.LDAPClient(), "_packing_options") else None))
+                except (sansldap.LDAPError, ValueError, TypeError, AttributeError):
+                    pass
+c2, s2 = sansldap.LDAPClient(), sansldap.LDAPServer()
+for call in (lambda: c2.bind_sasl("GSSAPI", "cn=a", b"tok"), lambda: c2.unbind()):
+    try:
+        call()
+        s2.receive(c2.data_to_send())
+        s2.bind_response(1, b"srv", _C.SASL_BIND_IN_PROGRESS, "cn=a", _DIAG[2])
+        c2.receive(s2.data_to_send())
+    except (sansldap.LDAPError, ValueError, KeyError):
+        pass
+for bad in (b"\x30\x0c\x02\x01\x01\x60\x07\x02\x01\x02\x04\x00\x80\x00", b"\x16\x03\x01\x00\x10", b"GET / HTTP/1.1\r\n\r\n", b"\x30\x05\x02\x01\x01\x4a\x00", b"\x30\x84\xff\xff\xff\xff"):
+    for x in (sansldap.LDAPClient(), sansldap.LDAPServer()):
+        try:
+            x.receive(bad)
+        except sansldap.LDAPError:
+            pass
+
 out = []
 for (pat, flags), e in RECORD.items():
     out.append({"pattern": pat, "flags": flags, "methods": sorted(e["methods"] - {"compile"}) or ["match"], "callers": sorted(e["callers"])})
